@@ -597,28 +597,37 @@ class Network:
         )
 
         pending = {direct_task, indirect_task}
-        while pending:
-            done, pending = await asyncio.wait(pending, return_when=asyncio.FIRST_COMPLETED)
+        try:
+            while pending:
+                done, pending = await asyncio.wait(pending, return_when=asyncio.FIRST_COMPLETED)
 
-            connections = []
-            for done_task in done:
-                try:
-                    connections.append(done_task.result())
-                except Exception:
-                    pass
+                connections = []
+                for done_task in done:
+                    try:
+                        connections.append(done_task.result())
+                    except Exception:
+                        pass
 
-            if connections:
+                if connections:
 
-                if pending:
-                    for pending_task in pending:
-                        logger.debug("cancelling connect task : %s", pending_task.get_name())
-                        pending_task.cancel()
-                    await asyncio.gather(*pending, return_exceptions=True)
+                    if pending:
+                        for pending_task in pending:
+                            logger.debug("cancelling connect task : %s", pending_task.get_name())
+                            pending_task.cancel()
+                        await asyncio.gather(*pending, return_exceptions=True)
 
-                if len(connections) > 1:
-                    await connections[1].disconnect(CloseReason.REQUESTED)
+                    if len(connections) > 1:
+                        await connections[1].disconnect(CloseReason.REQUESTED)
 
-                return connections[0]
+                    return connections[0]
+
+        except asyncio.CancelledError:
+            # The request itself got cancelled: do not leave the attempts
+            # running in the background
+            for task in (direct_task, indirect_task):
+                task.cancel()
+            await asyncio.gather(direct_task, indirect_task, return_exceptions=True)
+            raise
 
         raise PeerConnectionError(
             f"failed to connect to peer {username} ({typ=}, {ticket=})")
